@@ -344,6 +344,10 @@ class Explorer:
                     sat=self.nsat, unsat=self.nunsat, unknown=self.nunknown, solver_s=round(self.tsolve, 3))
 
 
+import re as _re
+_PROXY_NAME = _re.compile(r"\b(SInt|SStr|SBytes|SFloat|Atom|SymDict|SymSet|SymBidict|IpKey|LazyChars|SymPattern|SymMatch|sx_\w+)\b")
+
+
 def _triage_exception(e):
     """An exception counts as an observation of the code under test only if it was raised by that code, by a
     library it called, or by a deliberate `raise` in a model.  Anything else (z3 errors, a crash inside the
@@ -352,6 +356,10 @@ def _triage_exception(e):
     import os
     if isinstance(e, z3.Z3Exception):
         raise EngineError("z3 error: %s" % e)
+    if isinstance(e, (TypeError, AttributeError)) and _PROXY_NAME.search(str(e)):
+        # "unsupported operand type(s) for divmod(): 'SInt' and 'int'", "'SymSet' object has no attribute ...": the real
+        # operand types would not have raised this - a gap in the proxies, not a behaviour of the code under test
+        raise EngineError("operation not modelled by a proxy: %s: %s" % (type(e).__name__, e))
     tb = e.__traceback__
     last = None
     while tb is not None:
@@ -1277,6 +1285,11 @@ class SInt:
             return SInt.mk(r, lo, hi)
         return SInt.mk(q, self.lo // o, self.hi // o)
 
+    def __divmod__(self, o):
+        return self._divmod(o, "div"), self._divmod(o, "mod")
+
+    def __rdivmod__(self, o): raise EngineError("divmod by a symbolic integer")
+
     def __floordiv__(self, o): return self._divmod(o, "div")
     def __mod__(self, o): return self._divmod(o, "mod")
 
@@ -1299,7 +1312,14 @@ class SInt:
         if o is None:
             return NotImplemented
         if self.lo < 0 or o.lo < 0:
-            raise EngineError("bit operation on a possibly negative integer")
+            # Python's infinite two's complement: both operands sign-extended to a common signed width give the exact result
+            w = max(self.w, o.w)
+            x, y = self.ext(w), o.ext(w)
+            e = (x & y) if op == "and" else (x | y) if op == "or" else (x ^ y)
+            lo, hi = -(1 << (w - 1)), (1 << (w - 1)) - 1
+            if op == "and" and (self.lo >= 0 or o.lo >= 0):
+                lo, hi = 0, (self.hi if self.lo >= 0 else o.hi) if not (self.lo >= 0 and o.lo >= 0) else min(self.hi, o.hi)
+            return SInt.mk(e, lo, hi)
         w = max(self.w, o.w)
         x, y = self.ext(w), o.ext(w)
         if op == "and":
@@ -1315,19 +1335,23 @@ class SInt:
     __rxor__ = __xor__
 
     def __rshift__(self, n):
-        if isinstance(n, SInt) or self.lo < 0:
+        if isinstance(n, SInt):
             raise EngineError("symbolic shift")
+        if self.lo < 0:
+            # arithmetic shift = floor division by 2**n, as in Python
+            return SInt.mk((self.e >> z3.BitVecVal(min(n, self.w - 1), self.w)), self.lo >> n, self.hi >> n)
         return SInt.mk(z3.LShR(self.e, z3.BitVecVal(n, self.w)) if n < self.w else z3.BitVecVal(0, self.w), self.lo >> n, self.hi >> n)
 
     def __lshift__(self, n):
-        if isinstance(n, SInt) or self.lo < 0:
+        if isinstance(n, SInt):
             raise EngineError("symbolic shift")
         w = self.w + n
         return SInt.mk(z3.SignExt(n, self.e) << z3.BitVecVal(n, w), self.lo << n, self.hi << n)
 
     def __rlshift__(self, o): raise EngineError("shift by a symbolic amount")
     def __rrshift__(self, o): raise EngineError("shift by a symbolic amount")
-    def __invert__(self): raise EngineError("~ on symbolic integer")
+    def __invert__(self):
+        return -self - 1
 
     def _cmp_expr(self, o, op):
         o = SInt._coerce(o)
